@@ -20,7 +20,7 @@ PROPS['C11'] = dict(
 _root_modelled = 'math/big arithmetic as Z (Div/DivMod only with positive divisor and non-negative dividend); int64/big.Rat conversions as identities on values'
 for _p, _k, _name in (('C01', 'KSqrt', 'square'), ('C02', 'KCube', 'cube')):
     PROPS[_p] = dict(
-        theorem='%s_exact, %s_zero, %s_panic_iff, %s_checker_sound (Properties/%s.v)' % (_p, _p, _p, _p, _p),
+        theorem='%s_exact, %s_zero, %s_panic_iff, %s_value_only, %s_checker_sound (Properties/%s.v)' % (_p, _p, _p, _p, _p, _p),
         functional=True,
         level_text='Theorem for every positive radicand num/den and every depth n (no bound on magnitude or digit count): the model of the '
                    '%s-root constructors (normalisation loops, long division into groups, digit loop with the incr/incr2 recurrences) returns an '
@@ -28,8 +28,8 @@ for _p, _k, _name in (('C01', 'KSqrt', 'square'), ('C02', 'KCube', 'cube')):
                    'zero for radicand 0, panic iff bad sign; proofs by loop invariants (norm_spec, gen_step_inv/cgen_step_inv, run_list_spec). Tied to '
                    'the code of all three versions and all four constructors by a differential run, and the extracted checker ctor_check_fast '
                    '(proved sound) judges every implementation output independently of the model.' % _name,
-        level_note='Trusted: Coq kernel, extraction, drivers; math/big modelled by Z. "Depends only on the value of r" is checked by running each value '
-                   'through several representations and constructors (differential), not yet stated as a theorem. The memoizer between the digit '
+        level_note='Trusted: Coq kernel, extraction, drivers; math/big modelled by Z. "Depends only on the value of r" is a theorem (_value_only, by scaling invariance of the '
+                   'normalisation and of long division) and is also run (each value through several representations and constructors). The memoizer between the digit '
                    'closure and At() is covered by C04-C06.',
         rule='cases: zero and malformed arguments, every integer <= 300 (2000 thorough) and small fractions, perfect powers s^p and s^p+-1 for '
              's = 99..9, 100..0x, random up to 40 digits, trailing zeros, each at scales 10^-t, neighbours of powers of ten and their reciprocals, '
